@@ -374,11 +374,19 @@ pub fn gen(id: &str, r: &mut Rng, out: &mut Vec<Case>) {
             }
         }
         "C14T" => {
-            // model-independent form of C14: any flag-taking call, made from a clear word and from a random word
+            // model-independent form of C14: any flag-taking call, made from a clear word and from a random word.
+            // HARNESS_FOCUS_OPS=op1,op2 restricts it to those operations (used when the static flag-read obligation
+            // breaks, to search around the function that changed).
+            let focus: Vec<String> = std::env::var("HARNESS_FOCUS_OPS").map(|v| v.split(',').map(|x| x.to_string()).collect()).unwrap_or_default();
             let mut tmp = Vec::new();
-            let id2 = *r.pick(&["C01", "C02", "C04", "C06", "C07", "C08", "C09", "C10", "C11", "C12", "C13", "C16", "C17", "C03", "C14"]);
-            gen(id2, r, &mut tmp);
-            for c in tmp.into_iter().take(3) {
+            for _attempt in 0..200 {
+                tmp.clear();
+                let id2 = *r.pick(&["C01", "C02", "C04", "C06", "C07", "C08", "C09", "C10", "C11", "C12", "C13", "C16", "C17", "C03", "C14"]);
+                gen(id2, r, &mut tmp);
+                if focus.is_empty() || tmp.iter().any(|c| focus.iter().any(|f| f == &c.op)) { break; }
+            }
+            for c in tmp.into_iter().take(if focus.is_empty() { 3 } else { 40 }) {
+                if !focus.is_empty() && !focus.iter().any(|f| f == &c.op) { continue; }
                 if !takes_flags(&c.op) || c.op == "twice" { continue; }
                 let mut args = vec![sval(&c.op)];
                 args.extend(c.args.into_iter());
